@@ -27,6 +27,65 @@ type format struct {
 	validate func(v any) bool       // pkg/validate function the check is expected to call
 	delim    string                 // MAC delimiter
 	extraRe  []string               // regex.<Name> the public constructor adds through String.Regex (types/ids.go)
+	family   string                 // option family ("dto", "tmo"): variants are run interleaved in one process
+	dtOpts   *regex.DatetimeOptions // options of regex.Datetime for an IsoDateTime(options) variant
+	tmOpts   *regex.TimeOptions     // options of regex.Time for an IsoTime(options) variant
+}
+
+// precisions of the option families: label -> *int
+var precLabels = []string{"n", "m", "0", "1", "2", "3", "9"}
+
+func precOf(label string) *int {
+	switch label {
+	case "n":
+		return nil
+	case "m":
+		v := -1
+		return &v
+	}
+	v := int(label[0] - '0')
+	return &v
+}
+
+func init() {
+	for _, pl := range precLabels {
+		for _, off := range []bool{false, true} {
+			for _, loc := range []bool{false, true} {
+				p, off, loc := precOf(pl), off, loc
+				name := fmt.Sprintf("dto_%s_%s_%s", pl, b01(off), b01(loc))
+				formats = append(formats, format{name: name, checkFn: "ISODateTimeWithOptions", family: "dto",
+					mk: func() core.ZodSchema {
+						return gozod.IsoDateTime(gozod.IsoDatetimeOptions{Precision: p, Offset: off, Local: loc})
+					},
+					validate: func(v any) bool {
+						return validate.ISODateTimeWithOptions(v, validate.ISODateTimeOptions{Precision: p, Offset: off, Local: loc})
+					},
+					dtOpts: &regex.DatetimeOptions{Precision: p, Offset: off, Local: loc}})
+			}
+		}
+	}
+	for _, pl := range precLabels {
+		p := precOf(pl)
+		formats = append(formats, format{name: "tmo_" + pl, checkFn: "ISOTimeWithOptions", family: "tmo",
+			mk:       func() core.ZodSchema { return gozod.IsoTime(gozod.IsoTimeOptions{Precision: p}) },
+			validate: func(v any) bool { return validate.ISOTimeWithOptions(v, validate.ISOTimeOptions{Precision: p}) },
+			tmOpts:   &regex.TimeOptions{Precision: p}})
+	}
+	formats = append(formats,
+		format{name: "macdot", checkFn: "MACWithOptions", mk: func() core.ZodSchema { return gozod.MAC(".") },
+			validate: func(v any) bool { return validate.MACWithOptions(v, validate.MACOptions{Delimiter: "."}) }, delim: "."},
+		format{name: "uuidp6", checkFn: "UUID", mk: func() core.ZodSchema { return gozod.UUID("v6") },
+			validate: func(v any) bool { return validate.UUID(v) && validate.Regex(v, regex.UUID6) }, extraRe: []string{"UUID6"}},
+		format{name: "uuidp7", checkFn: "UUID", mk: func() core.ZodSchema { return gozod.UUID("v7") },
+			validate: func(v any) bool { return validate.UUID(v) && validate.Regex(v, regex.UUID7) }, extraRe: []string{"UUID7"}},
+	)
+}
+
+func b01(b bool) string {
+	if b {
+		return "1"
+	}
+	return "0"
 }
 
 var formats = []format{
@@ -56,8 +115,21 @@ var formats = []format{
 }
 
 // regexByName resolves the `regex.<Name>` selectors found in the source to the live objects.
-func regexByName(name, delim string) *regexp.Regexp {
+func regexByName(name string, f format) *regexp.Regexp {
+	delim := f.delim
 	switch name {
+	case "Datetime":
+		if f.dtOpts != nil {
+			return regex.Datetime(*f.dtOpts)
+		}
+		return nil
+	case "Time":
+		if f.tmOpts != nil {
+			return regex.Time(*f.tmOpts)
+		}
+		return nil
+	case "DefaultTime":
+		return regex.DefaultTime
 	case "IPv4":
 		return regex.IPv4
 	case "IPv6":
@@ -146,7 +218,7 @@ func selectors(n ast.Node, pkg string) []string {
 	var out []string
 	ast.Inspect(n, func(x ast.Node) bool {
 		if se, ok := x.(*ast.SelectorExpr); ok {
-			if id, ok := se.X.(*ast.Ident); ok && id.Name == pkg {
+			if id, ok := se.X.(*ast.Ident); ok && id.Name == pkg && se.Sel.Name != "DatetimeOptions" && se.Sel.Name != "TimeOptions" {
 				out = append(out, se.Sel.Name)
 			}
 		}
@@ -323,7 +395,7 @@ func genLean(repo, dir string) error {
 		}
 		gw := newLeanWriter()
 		for i, rn := range rxNames {
-			re := regexByName(rn, f.delim)
+			re := regexByName(rn, f)
 			if re == nil {
 				return fmt.Errorf("format %s: validator uses regex.%s which the harness does not know", f.name, rn)
 			}
